@@ -2,10 +2,29 @@
 
 package mapping
 
-import "net"
+import (
+	"net"
+	"time"
+)
 
 // VerifSession builds a UDPVirtualConn exactly as readLoop does for the first packet of a new peer:
 // through the real getOrCreateSession (fields, write loop goroutine, connChan hand-off).
 func (a *UDPMappingAdapter) VerifSession(remote net.Addr, listener net.PacketConn) *UDPVirtualConn {
 	return a.getOrCreateSession(remote.String(), remote, listener)
 }
+
+// VerifAge moves the session's activity stamp d into the past (virtual time: as if d had elapsed without the stamp
+// being refreshed); VerifCleanup runs one pass of the adapter's cleanup loop body.
+func (c *UDPVirtualConn) VerifAge(d time.Duration) { c.lastActive.Add(-d.Nanoseconds()) }
+func (a *UDPMappingAdapter) VerifCleanup()         { a.cleanupStaleSessions() }
+func (c *UDPVirtualConn) VerifClosed() bool {
+	select {
+	case <-c.closeCh:
+		return true
+	default:
+		return false
+	}
+}
+
+// VerifUDPSessionTTLSeconds: the session time-to-live the cleanup loop applies
+func VerifUDPSessionTTLSeconds() int64 { return int64(udpSessionTTL / time.Second) }
